@@ -42,7 +42,7 @@ fn replace(h: &[u8], from: &[u8], to: &[u8]) -> Vec<u8> {
     while i < h.len() { if h[i..].starts_with(from) { out.extend_from_slice(to); i += from.len(); } else { out.push(h[i]); i += 1; } }
     out
 }
-const PROBE_SCOPES: &[&str] = &["A", "B", "L", "P:776562", "P:776f726b6572"];
+const PROBE_SCOPES: &[&str] = &["A", "B", "L", "P:776562", "P:776f726b6572", "P:6275696c64", "P:6c61756e6368"];
 fn probes(le: &LayerEnv, names: &[Vec<u8>], layer: &Path) -> String {
     let mut dn: Vec<Vec<u8>> = vec![];
     for n in names { if !dn.contains(n) { dn.push(n.clone()); } }
